@@ -38,6 +38,10 @@ func c05Gen(r *rand.Rand, tier string) []spec.Case {
 			}
 		}
 	}
+	// a custom runner whose stdout reader breaks (a log stream that fails with an error other than EOF)
+	for _, cause := range []string{"silence", "garbage", "field-version"} {
+		out = append(out, spec.Case{Kind: cause, P: spec.MustJSON(spec.C05Case{Cause: cause, Launch: "runner-stdout-err", TimeoutMs: 600})})
+	}
 	return out
 }
 
